@@ -92,8 +92,10 @@ func init() {
 				{Harness: "annotations.ZZC15Constructor24", Desc: "@constructor: recognition and parsed name list vs reference", Bounds: map[string]interface{}{"text_bytes": 24, "list_items": "<= 5 (Split unwinding asserted)"}},
 				{Harness: "annotations.ZZC15PackageOnly24", Desc: "@packageonly: recognition and allow-list (declaring package first) vs reference", Bounds: map[string]interface{}{"text_bytes": 24, "list_items": "<= 5"}},
 				{Harness: "ignore.ZZC15Ignore18", Desc: "@ignore: recognition and upper-cased code list vs reference", Bounds: map[string]interface{}{"text_bytes": 18, "list_items": "<= 5"}},
-				{Harness: "zzverif/zzh.ZZC15bAttachment", Desc: "attachment sites: a comment (6 annotation keywords, plain, 5 near-misses) at any two of 12 sites of a file (doc of type spec / type group / func / method / named field of an @immutable struct / field of another struct / embedded field / var / const, trailing comment, comment in a body, doc of a local type; plus a block-comment doc): annotations are produced exactly at the effective sites", Bounds: map[string]interface{}{"sites": 14, "non_plain_comments": "<= 2", "alternatives": 17}},
+				{Harness: "zzverif/zzh.ZZC15bAttachment", Desc: "attachment sites: a comment (6 annotation keywords, plain, 5 near-misses) at any two of 12 sites of a file (doc of type spec / type group / func / method / named field of an @immutable struct / field of another struct / embedded field / var / const, trailing comment, comment in a body, doc of a local type; plus a block-comment doc; a two-line doc whose lines are arbitrary independently; a member of a type(...) group with its OWN doc next to the group's doc — its own doc must take effect, the group doc's reach to it is a don't-care): annotations are produced exactly at the effective sites", Bounds: map[string]interface{}{"sites": 17, "non_plain_comments": "<= 2", "alternatives": 17}},
 				{Harness: "zzverif/zzh.ZZC15bAttachment3", Tier: "thorough", Desc: "attachment sites with any three non-plain comments at a time", Bounds: map[string]interface{}{"non_plain_comments": "<= 3"}},
+				{Harness: "zzverif/zzh.ZZC15bIgnoreLines", Desc: "every line of a comment group is recognised on its own: six comment lines in three groups (before a declaration, inside a function, trailing a statement), any three non-plain at a time over 5 spellings; the number of @ignore markers equals the number of well-formed @ignore lines", Bounds: map[string]interface{}{"lines": 6, "non_plain_at_a_time": 3, "spellings": 5}},
+				{Harness: "zzverif/zzh.ZZC15bIgnoreLines6", Tier: "thorough", Desc: "the same with all six lines arbitrary at once (15625 combinations)", Bounds: map[string]interface{}{"lines": 6, "non_plain_at_a_time": 6}},
 				{Harness: "annotations.ZZC15Simple28", Tier: "thorough", Desc: "@immutable/@testonly/@mutable on 28-byte comments", Bounds: map[string]interface{}{"text_bytes": 28}, Setup: func(ex *eng.Explorer, tier string) { ex.TimeoutMS = 300000 }},
 				{Harness: "annotations.ZZC15Constructor30", Tier: "thorough", Desc: "@constructor on 30-byte comments", Bounds: map[string]interface{}{"text_bytes": 30, "list_items": "<= 7"}, Setup: func(ex *eng.Explorer, tier string) { ex.TimeoutMS = 300000; ex.MaxSplit = 7 }},
 				{Harness: "annotations.ZZC15Implements30", Tier: "thorough", Desc: "@implements on 30-byte comments", Bounds: map[string]interface{}{"text_bytes": 30}, Setup: func(ex *eng.Explorer, tier string) { ex.TimeoutMS = 300000 }},
@@ -272,6 +274,7 @@ func init() {
 			ID: "C05",
 			Runs: []Run{
 				{Harness: "zzverif/zzh.ZZC05Zoo", Desc: "three-package zoo (interfaces with []byte, variadic vs slice, pointer depth, alias-typed and named parameters, func and map parameters, embedded interface, empty interface, a non-interface; types with value/pointer receivers and promotion through an embedded pointer); 20 annotation spellings (value/pointer contract; unqualified, package name, explicit alias, declared name != path element, path element, unknown package, unknown interface, current package's own name) on any one of 7 types: the code reported at the type equals the verdict computed with go/types (import bindings, Scope.Lookup, types.Implements)", Bounds: map[string]interface{}{"types": 9, "spellings": 24, "annotated_types_at_a_time": 1, "files": 2}},
+				{Harness: "zzverif/zzh.ZZC05Pairs", Desc: "TWO annotation lines on one type plus one on a second type at the same time (10 spellings each, incl. same-named interfaces of different packages ifs.Reader / yaml.Reader / Local, value and pointer contracts, unknown package / interface): the number of diagnostics of each code on each type equals the number of its lines with that go/types verdict", Bounds: map[string]interface{}{"annotation_lines": 3, "spellings": 10, "identical_spelling_twice_on_one_type": "outside"}},
 			},
 			Outside:     []string{"type shapes not in the zoo (channels, generic types, unexported methods across packages, nested aliases inside composite types)", "the list of methods printed by IMPL03 (only the verdict is compared)", "several annotated types in one package at a time"},
 			Assumptions: []string{"the oracle is go/types itself, called as host code on the type-checked skeleton", "as C01-C04"},
